@@ -57,6 +57,7 @@ async def run_config(ctx, tree, kind, seqs, rnd, results):
         if inm and grow is not None and inm == getattr(kr, 'etag', None):
             # the stored version is still current: 304 with a header block that is `grow` bytes larger than before
             kr.n304 = getattr(kr, 'n304', 0) + 1
+            kr.ev.append({'e': 'O304', 'grow': int(grow)})       # bookkeeping for witness classification only (not a spec event)
             await oc.send(peers.response_head(304, 'Not Modified', [('ETag', kr.etag), ('Cache-Control', 'max-age=3600'), ('Date', peers.http_date()),
                                                                       ('X-Verif-Pad', 'p' * int(grow)), ('X-Verif-Origin', '1')]))
             return False
@@ -164,13 +165,19 @@ def run(ctx):
                 skipped.append('diskd: ' + str(e)[:200])
                 continue
             raise
-    hist = [{'ev': [{k: v for k, v in e.items() if k != 'cs'} for e in kr.ev]} for _, kr in results]
+    hist = [{'ev': [{k: v for k, v in e.items() if k != 'cs'} for e in kr.ev if e['e'] != 'O304']} for _, kr in results]
     rej = escen.validate(ctx, os.path.join(SPEC, 'Trace_Hits.tla'), os.path.join(SPEC, 'Trace_Hits.cfg'), hist, 'hits')
     ctx.log('realised %d key histories on %s; P-rejected %d' % (len(results), kinds, len(rej)))
     for i in rej[:5]:
         kind, kr = results[i]
-        ctx.violation('a served response is not one complete origin version (Hits.tla), store=%s ops=%s size=%d' % (kind, kr.ops, kr.size),
-                      {'kind': 'hits', 'store': kind, 'ops': kr.ops, 'size': kr.size, 'events': kr.ev})
+        # witness class: what is wrong with the first bad answer, and did a 304 header update of this entry precede it
+        bad = [j for j, e in enumerate(kr.ev) if e['e'] == 'CResp' and e['hv'] >= 0 and (not e['intact'] or (e.get('fromCache') and not e['complete']))]
+        after304 = bool(bad) and any(e['e'] == 'O304' for e in kr.ev[max(0, bad[0] - 2):bad[0]])
+        shape = 'incomplete-or-garbled-answer-from-cache' if bad and all(kr.ev[j].get('fromCache') for j in bad) else 'other'
+        cls = {'store': kind, 'shape': shape, 'right_after_304_header_update': after304}
+        ctx.violation('a served response is not one complete origin version (Hits.tla), store=%s ops=%s size=%d: %s' % (
+            kind, kr.ops, kr.size, json.dumps([kr.ev[j] for j in bad][:2])),
+                      {'kind': 'hits', 'class': cls, 'store': kind, 'ops': kr.ops, 'size': kr.size, 'events': kr.ev})
     hits = sum(1 for _, kr in results for e in kr.ev if e['e'] == 'CResp' and ';hit' in e.get('cs', ''))
     ctx.cov['impl_distinct'] = len({json.dumps([k, kr.ops, kr.size, kr.status]) for k, kr in results})
     ctx.cov['responses_checked'] = sum(1 for _, kr in results for e in kr.ev if e['e'] == 'CResp')
